@@ -573,7 +573,6 @@ class LinearModel(Model):
         #Store matrix privately
         self._matrix = matrix
         self._matrix_is_given = matrix is not None
-        self._par_matrix = None # Assembled matrix if the given one is not the forward operator
 
         #Add gradient
         self._gradient_func = lambda direction, wrt: self._adjoint_func(direction)
@@ -604,7 +603,6 @@ class LinearModel(Model):
 
     def _reset_assembled_matrix(self):
         """ A matrix assembled from forward belongs to the geometries it was assembled with. """
-        self._par_matrix = None
         if not getattr(self, "_matrix_is_given", True):
             self._matrix = None
 
@@ -637,12 +635,12 @@ class LinearModel(Model):
         # A matrix given by the user acts on function values. It represents the
         # forward operator (parameters to parameters) only if the geometries do
         # not alter the values; otherwise the matrix is assembled from forward.
+        # It is assembled anew at every call (not kept): the user may update
+        # the entries of the given matrix in place, which forward follows.
         if self._matrix_is_given and not (
             self._is_identity_geometry(self.domain_geometry) and
             self._is_identity_geometry(self.range_geometry)):
-            if self._par_matrix is None:
-                self._par_matrix = self._assemble_matrix()
-            return self._par_matrix
+            return self._assemble_matrix()
 
         if self._matrix is None:
             self._matrix = self._assemble_matrix() #Store matrix for future use
